@@ -6,6 +6,10 @@ import (
 )
 
 var plainMu sync.Mutex
+
+// origReader is the operating-system randomness, captured before any harness redirects
+// crypto/rand.Reader to DetReader.
+var origReader = crand.Reader
 var plainSeeded bool
 var plainState, plainCtr uint64
 
@@ -27,7 +31,7 @@ func PlainRandRead(b []byte) (int, error) {
 	plainMu.Lock()
 	defer plainMu.Unlock()
 	if !plainSeeded {
-		return crand.Read(b)
+		return origReader.Read(b)
 	}
 	for i := 0; i < len(b); i += 8 {
 		plainCtr++
